@@ -81,6 +81,7 @@ func addMenu() []AddCall {
 		{Kind: "remote", Addr: P6, Finder: "F2"},
 		{Kind: "remote", Addr: P1, Finder: "G1"},                          // another finder TYPE that prints like F1
 		{Kind: "registry", Addr: R1, Allowed: "only:1.0.0", Finder: "F1"}, // same source and finder as #4, another version
+		{Kind: "registry", Addr: R1 + "//m", Allowed: "only:2.0.0", Finder: "F2"}, // a set that skips lower versions it is offered (#14)
 	}
 }
 
@@ -600,12 +601,12 @@ func RunC13(tier string) int {
 	rep := core.NewReport("C13", tier)
 	thorough := tier == "thorough"
 	genDeadline := time.Now().Add(30 * time.Second)
-	addIdx := []int{0, 2, 4, 5, 8, 10, 11}
+	addIdx := []int{0, 2, 4, 5, 8, 10, 11, 14}
 	maxEdges := 1
 	if thorough {
 		genDeadline = time.Now().Add(5 * time.Minute)
 		maxEdges = 2
-		addIdx = []int{0, 1, 2, 3, 4, 5, 6, 7, 8, 10, 11}
+		addIdx = []int{0, 1, 2, 3, 4, 5, 6, 7, 8, 10, 11, 14}
 	}
 	// sets of distinct adds (order irrelevant): enumerate sequences with ascending menu indices
 	menu := addMenu()
